@@ -306,7 +306,7 @@ func C11(c *Ctx) error {
 	}
 
 	// ---- cases ----
-	perShape := c.N(60, 420)
+	perShape := c.N(150, 420)
 	var all []*c11Case
 	for si, sh := range shapes {
 		rr := r.Fork(fmt.Sprint("cases-", si, "-", sh.mi.m.Name))
@@ -788,7 +788,7 @@ func divergenceKey(k *c11Case, ref refVerdict, refClass string, seen proto.Messa
 		}
 		// a null element of a list that Go's encoding/json turns into a zero
 		if nullElementIn(sh, tree) {
-			return "dispatched_undecodable:null_list_element_read_as_zero"
+			return "dispatched_undecodable:null_element_read_as_zero"
 		}
 		if sh.kind == "flatten" || sh.kind == "oneofflat" {
 			if c, ok := dropUnmatchedChildMembers(sh, k.in, tree); ok {
@@ -869,6 +869,13 @@ func nullElementIn(sh *c11Shape, tree *jn) bool {
 	}
 	if sh.kind == "ulist" {
 		return hasNull(tree) && sh.mi.in.Fields[0].Kind != "message"
+	}
+	if sh.kind == "umap" && tree.k == 'o' && sh.mi.in.Fields[0].Kind != "message" {
+		for _, m := range tree.obj {
+			if m.val.k == 'n' {
+				return true
+			}
+		}
 	}
 	if sh.kind == "surgery" && tree.k == 'o' {
 		for _, m := range tree.obj {
@@ -1205,7 +1212,18 @@ func auxFor(key string, k *c11Case) (map[string]any, string) {
 		if key, own := overwrittenVariantMember(k); key != "" {
 			return map[string]any{"op": "aux_case", "what": "oneof_overwrite", "key": key, "own": own.model()}, "ignored"
 		}
-	case "dispatched_undecodable:null_list_element_read_as_zero":
+	case "dispatched_undecodable:null_element_read_as_zero":
+		if sh.kind == "umap" && k.tree != nil {
+			abs := &jn{k: 'a', arr: []*jn{}}
+			for _, m := range k.tree.obj {
+				if m.val.k == 'n' {
+					abs.arr = append(abs.arr, jNull())
+				} else {
+					abs.arr = append(abs.arr, jBool(true))
+				}
+			}
+			return map[string]any{"op": "aux_case", "what": "unwrap_elems", "body": abs.model()}, "dispatch"
+		}
 		if sh.kind == "ulist" && k.tree != nil {
 			abs := k.tree.clone()
 			for i, e := range abs.arr {
